@@ -196,6 +196,15 @@ def main(argv=None):
                 and "unsupported" not in res and "undecided" not in res:
             problems.append(("vacuous", f"{res['task']}: zero obligations"))
         for ob in res["obligations"]:
+            if ob.get("kind") == "bounded":
+                # bounded stand-ins are never counted as obligations; a failure is still a (concrete) violation
+                if ob["status"] == "refuted":
+                    kf = _match_finding(findings, res["task"], ob["name"])
+                    if kf is not None:
+                        known_hit.setdefault(kf["id"], []).append((res, ob))
+                    else:
+                        violations.append((res, ob))
+                continue
             obligations += 1
             if ob["status"] == "proved":
                 discharged += 1
